@@ -3,8 +3,9 @@
 # and runs the 12 test executables; writes one line per commit to the log given as $1.
 LOG=${1:-/tmp/fix_commits.log}
 WT=/tmp/wt_fixverify
-: > "$LOG"
+touch "$LOG"
 for c in $(git -C /repo log --reverse --format=%h --grep='^fix:' ); do
+  grep -q "^$c rc=0" "$LOG" && continue
   rm -rf $WT; git -C /repo worktree prune; git -C /repo worktree add -f $WT $c -q || { echo "$c worktree-failed" >> "$LOG"; continue; }
   ( cd $WT && cmake -G Ninja -B _build -S . -DAMGCL_BUILD_TESTS=ON -DCMAKE_BUILD_TYPE=RelWithDebInfo > /dev/null 2>&1 && nice cmake --build _build -j6 > _build/build.log 2>&1 \
     && GOMP_SPINCOUNT=0 OMP_NUM_THREADS=4 ctest --test-dir _build -j3 --timeout 1500 > _build/ctest.log 2>&1 )
